@@ -1,4 +1,5 @@
 """Shared per-run analysis context: program, roles, path sets (computed once, reused by all rules)."""
+import re
 import frontend
 import model
 import symex
@@ -14,6 +15,7 @@ class Analysis:
         self.evals = {}
         self._paths = {}
         self._classified = set()
+        self.touched = set()
         self._ready = False
         self.incomplete = []
         self.renamed = model.canonicalise_names(self.prog)
@@ -116,7 +118,16 @@ class Analysis:
                     bad |= mentions(p.ret)
         return (cands | set('.' + x for x in rcands)) - bad
 
+    def relevant(self, msg):
+        """does an incompleteness note concern a container this run's rules looked at?  (a construct without semantics in one
+        container says nothing about a property that only speaks of another)"""
+        m = re.search(r'reached from (\w+)::', msg)
+        if m is None or not self.touched:
+            return True
+        return m.group(1) in self.touched
+
     def classes(self, names=None):
+        self.touched |= set(names or frontend.CONTAINERS)
         for name in (names or frontend.CONTAINERS):
             yield self.prog.classes[name], self.roles[name]
 
